@@ -139,8 +139,8 @@ def run(ctx):
     ctx.prove()
     run_l1(ctx, ctx.n(100, 4000), l1_monitor, THEOREMS, need=("complete_run", "fail_workflow", "tick_TickCancelRun", "tick_TickTimeout"))
     modes = ["result", "step_fail", "policy_raises", "pred_raises", "other_return", "stop_race", "cancel", "timeout",
-             "finally_publish", "user_policy_object", "stop_race_publish"]
-    fails, facts = run_l2(ctx, [S.exits, S.exits, S.exits, S.failflow, S.fanout], ctx.n(240, 5000), l2_monitor,
+             "finally_publish", "user_policy_object", "stop_race_publish", "uncopyable_payload", "stop_race_slow_unwind"]
+    fails, facts = run_l2(ctx, [S.exits, S.exits, S.exits, S.failflow, S.fanout, S.lockflow], ctx.n(270, 5000), l2_monitor,
                           need=tuple(("mode_" + m, 3) for m in modes) + (("runs_ended", 100),))
     known = [f for f in fails if f["why"].startswith(K_CANCEL_PUBLISH)]
     other = [f for f in fails if not f["why"].startswith(K_CANCEL_PUBLISH)]
